@@ -394,7 +394,8 @@ Definition after_prefix (hash : bool) (prefix writers : list cop) : gst :=
 Definition results (g : gst) : list cres := map w_res (g_ws g).
 Definition committed_vols (g : gst) : list (ckey * Z) :=
   map (fun r => (v_key r, v_bal r)) (filter (fun r => negb (v_new r)) (g_vols g)).
-Definition committed_txs (g : gst) : list trow := filter (fun t => match t_own t with None => true | Some _ => false end) (g_txs g).
-Definition committed_logs (g : gst) : list lrow := filter (fun l => match l_own l with None => true | Some _ => false end) (g_logs g).
+(* committed rows that are in the table (a pending row only records a drawn id) *)
+Definition committed_txs (g : gst) : list trow := filter (fun t => match t_own t with None => negb (t_pend t) | Some _ => false end) (g_txs g).
+Definition committed_logs (g : gst) : list lrow := filter (fun l => match l_own l with None => negb (l_pend l) | Some _ => false end) (g_logs g).
 Definition sched_outcome (hash : bool) (prefix writers : list cop) (sched : list wid) : gst :=
   run (after_prefix hash prefix writers) sched.
